@@ -431,8 +431,8 @@ class Shelxfile():
                 # Do not continue here, otherwise HKLF is not parsed
             if word == 'AFIX':
                 self.afix = self._assign_card(AFIX(self, spline), line_num)
-            elif self.is_atom(line):
-                # A SHELXL atom:
+            elif not self.frag and self.is_atom(line):
+                # A SHELXL atom (the lines between FRAG and FEND are no atoms of the structure):
                 # F9    4    0.395366   0.177026   0.601546  21.00000   0.03231  ( 0.03248 =
                 #            0.03649  -0.00522  -0.01212   0.00157 )
                 a = Atom(self)
